@@ -296,3 +296,60 @@ func applyMutation(s *Site, m Mutation, node, parent *yaml.Node) {
 		}
 	}
 }
+
+// fingerprintOf names the failing class of a variant: "<site-kind path>:<invalid kind>", where invalid kinds that
+// are the same mistake in different spelling share one name (five unparsable URLs, three bad ports, ...) and the
+// three ways of leaving out a section (no key, null, wrong spelling of nothing) are one "missing".
+func fingerprintOf(s *Site, m Mutation) string {
+	kind, name := s.Kind, m.Name
+	switch s.Class {
+	case "url":
+		switch name {
+		case "bad-escape", "control-char", "missing-scheme", "space-in-host", "unbalanced-bracket":
+			name = "unparsable-url"
+		}
+	case "listenaddr", "hostport":
+		switch name {
+		case "bad-port", "port-range", "negative-port":
+			name = "invalid-port"
+		}
+	case "template", "tagtemplate":
+		switch name {
+		case "bounds-huge", "bounds-huge-end":
+			name = "bounds-out-of-range"
+		}
+	case "xpattern":
+		switch name {
+		case "bare-star", "no-boundary":
+			name = "no-boundary"
+		case "empty-bracket", "double-hyphen":
+			name = "bad-bracket-expression"
+		}
+	case "regex-extract":
+		switch name {
+		case "unknown-capture", "bad-capture-name":
+			name = "unknown-capture"
+		}
+	case "fieldref":
+		if name == "case-variant" {
+			name = "unknown-field"
+		}
+	case "typedmap":
+		// a typed section that sits under a key (orchestration, buffer, output) and is null = the section is missing
+		if name == "null" && s.Parent != nil && s.Parent.Kind == yaml.MappingNode && s.Pos > 0 {
+			key := s.Parent.Content[s.Pos-1].Value
+			if key == "orchestration" {
+				return "root.orchestration:missing"
+			}
+			return "pair." + key + ":missing"
+		}
+	case "pair":
+		if name == "delete" && (kind == "root.orchestration" || kind == "pair.buffer" || kind == "pair.output") {
+			name = "missing"
+		}
+	}
+	if kind == "root.outputBufferPairs" && (name == "delete" || name == "null" || name == "empty-seq") {
+		name = "none"
+	}
+	return kind + ":" + name
+}
